@@ -37,6 +37,17 @@ const PROTO_NAMES = new Set(["constructor", "prototype", "__proto__", "toString"
 function droppedProtoName(data, input, depth = 0) {
   if (depth > 50 || data === null || input === null || typeof data !== "object" || typeof input !== "object") return false;
   if (Array.isArray(data) && Array.isArray(input)) return data.some((x, i) => droppedProtoName(x, input[i], depth + 1));
+  // Map values (entries paired in insertion order) and Set elements
+  if (data instanceof Map && input instanceof Map) {
+    const a = [...data.values()],
+      b = [...input.values()];
+    return a.some((x, i) => droppedProtoName(x, b[i], depth + 1));
+  }
+  if (data instanceof Set && input instanceof Set) {
+    const a = [...data],
+      b = [...input];
+    return a.some((x, i) => droppedProtoName(x, b[i], depth + 1));
+  }
   if (Array.isArray(data) || Array.isArray(input) || data instanceof Map || data instanceof Set) return false;
   for (const k of Object.keys(input)) {
     const has = Object.prototype.hasOwnProperty.call(data, k);
